@@ -278,7 +278,7 @@ theorem blend_bound (w d : Frame ℝ) (m Y X : ℝ) (hm0 : 0 ≤ m) (hm1 : m ≤
   have p2 := Real.sqrt_nonneg (1 - m)
   rw [blend_real]
   constructor
-  · simp only [Frame.add_left, Frame.scale_left]
+  · simp only [FrameB.add_left, FrameB.scale_left]
     calc |w.left * Real.sqrt m + d.left * Real.sqrt (1 - m)|
         ≤ |w.left * Real.sqrt m| + |d.left * Real.sqrt (1 - m)| := abs_add_le _ _
       _ = |w.left| * Real.sqrt m + |d.left| * Real.sqrt (1 - m) := by
@@ -286,7 +286,7 @@ theorem blend_bound (w d : Frame ℝ) (m Y X : ℝ) (hm0 : 0 ≤ m) (hm1 : m ≤
       _ ≤ Y * 1 + X * 1 :=
           add_le_add (mul_le_mul hwl s1 p1 hY) (mul_le_mul hdl s2 p2 hX)
       _ = Y + X := by ring
-  · simp only [Frame.add_right, Frame.scale_right]
+  · simp only [FrameB.add_right, FrameB.scale_right]
     calc |w.right * Real.sqrt m + d.right * Real.sqrt (1 - m)|
         ≤ |w.right * Real.sqrt m| + |d.right * Real.sqrt (1 - m)| := abs_add_le _ _
       _ = |w.right| * Real.sqrt m + |d.right| * Real.sqrt (1 - m) := by
